@@ -488,6 +488,27 @@ def run(chk, replay=None):
                                     'Lcapy/Driver/C12.lean'],
                       leanchecker=(chk.tier == 'thorough'))
     drv = chk.get_driver()
+    # full-strength table obligations (`ft_table_inverse`, `ft_table_forward`, `norm_variants`) are evaluated by the compiled
+    # Lean predicates on the regenerated table; a `false` is a broken obligation that the oracle has to explain
+    tc = drv.ask1('ft.tablecheck').split(' | ')
+    flags = {part.split()[0]: [x == 'true' for x in part.split()[1:]] for part in tc}
+    table_broken = []
+    for i, ok in enumerate(flags.get('inverse', [])):
+        if not ok:
+            table_broken.append('C12.lean:ft_table_inverse[%s]' % info['entries'][i]['test'][:48])
+    for i, ok in enumerate(flags.get('forward', [])):
+        if not ok:
+            table_broken.append('C12.lean:ft_table_forward[%s]' % info['entries'][i]['test'][:48])
+    for i, ok in enumerate(flags.get('conv', [])):
+        if not ok:
+            d, tdst, _, _ = info['conversions'][i]
+            table_broken.append('C12.lean:norm_variants[%s->%s]' % (d, tdst))
+    chk.coverage['table_obligations'] = {'entries': len(flags.get('inverse', [])), 'conversion_rows': len(flags.get('conv', [])),
+                                         'failing': table_broken}
+    chk.coverage['obligations'] += len(flags.get('inverse', [])) + len(flags.get('forward', [])) + len(flags.get('conv', []))
+    chk.coverage['discharged'] += len(flags.get('inverse', [])) + len(flags.get('forward', [])) + len(flags.get('conv', [])) - len(table_broken)
+    broken = list(broken) + table_broken
+    chk.coverage['broken_obligations'] = broken
     if common.REPO != '/repo':
         sys.path.insert(0, common.REPO)
     import sympy as S
@@ -500,8 +521,8 @@ def run(chk, replay=None):
     can = Canon(S, lcapy)
     rng = chk.rng
     quick = chk.tier == 'quick'
-    n_fwd = 24 if quick else 420
-    n_inv = 24 if quick else 420
+    n_fwd = 24 if quick else 100
+    n_inv = 24 if quick else 260
     n_conv = 1 if quick else 4
     chk.coverage['rule'] = ('each case = (direction, frequency variable, signal); a signal is a sum of 1-3 pieces c*mod(theta)*K(a*v+b) with K from the '
                             'class (constants, steps, signum, deltas, |t|, ramps, t, t^2, rect/tri/sinc/sinc^2, Gaussian, one-/two-sided and '
@@ -541,7 +562,7 @@ def run(chk, replay=None):
         raise LcapyTimeout()
 
     signal.signal(signal.SIGALRM, _alarm)
-    tlimit = 12 if quick else 40
+    tlimit = 12 if quick else 20
 
     def limited(fn, *a, **kw):
         """run a call into the real code under a wall-clock limit (SymPy's integrators occasionally do not return)"""
@@ -565,8 +586,12 @@ def run(chk, replay=None):
             p = pieces[0]
             return {'kind': what, 'direction': direction, 'variable': dom, 'atom': p.kind.split(':')[0],
                     'a_sign': 'neg' if p.a < 0 else 'pos', 'scaled': abs(p.a) != 1, 'shifted': p.b != 0, 'modulated': p.mod != 'none'}
-        return {'kind': what, 'direction': direction, 'variable': dom,
-                'atom': 'sum:' + '+'.join(sorted({q.kind.split(':')[0] for q in pieces}))}
+        # a sum that fails only as a whole is keyed by its most suspicious piece (fixed priority), flagged `in_sum`
+        prio = ['expabs', 'step', 'cpole', 'expu', 'ramp', 'inv1', 'sgn', 'inv2', 'abs', 'pw', 'delta', 'gauss', 'sinc', 'sinc2', 'rect', 'tri', 'one']
+        p = sorted(pieces, key=lambda q: (prio.index(q.kind.split(':')[0]) if q.kind.split(':')[0] in prio else 99, q.key()))[0]
+        k = piece_key(what, direction, dom, [p])
+        k['in_sum'] = '+'.join(sorted({q.kind.split(':')[0] for q in pieces}))
+        return k
 
     memo = {}
 
